@@ -305,7 +305,7 @@ def fi_case(rng, tier, ci, stats):
                 pos = tn.searchsorted(srt, v.reshape(-1)).clamp(0, srt.numel() - 1)
                 near = tn.minimum((srt[pos] - v.reshape(-1)).abs(), (srt[(pos - 1).clamp(0)] - v.reshape(-1)).abs())
                 scale = float(entries.abs().max()) + 1e-300
-                if float(near.max()) > 1e-9 * scale:
+                if not (float(near.max()) <= 1e-9 * scale):
                     box["bad"] = "a value handed to the function is not an entry of the argument tensor (distance %.3g)" % float(near.max())
                 return v * v + 1.0
             y = IP.function_interpolate(f, z, eps=eps, nswp=12)
@@ -334,7 +334,7 @@ def fi_case(rng, tier, ci, stats):
                     col = v[:, k].reshape(-1).to(tn.float64)
                     pos = tn.searchsorted(srt, col).clamp(0, srt.numel() - 1)
                     near = tn.minimum((srt[pos] - col).abs(), (srt[(pos - 1).clamp(0)] - col).abs())
-                    if float(near.max()) > 1e-9 * (float(ent.abs().max()) + 1e-300):
+                    if not (float(near.max()) <= 1e-9 * (float(ent.abs().max()) + 1e-300)):
                         box["bad"] = "column %d holds a value that is not an entry of argument tensor %d (distance %.3g)" % (k, k, float(near.max()))
                 return 1.0 / (1.0 + sum(w * v[:, k] for k, w in enumerate(wts)))
             y = IP.function_interpolate(f, use, eps=eps, nswp=12)
@@ -353,7 +353,7 @@ def fi_case(rng, tier, ci, stats):
                     col = v[:, k]
                     ref_v = vs[k]
                     dist = (col.reshape(-1, 1) - ref_v.reshape(1, -1)).abs().min(1)[0]
-                    if float(dist.max()) > 1e-9:
+                    if not (float(dist.max()) <= 1e-9):
                         box["bad"] = "column %d holds a value that is not an entry of argument tensor %d" % (k, k)
                 return 1.0 / (1.0 + v.sum(1))
             y = IP.function_interpolate(f, use, eps=eps, nswp=12)
